@@ -290,8 +290,15 @@ def replay_case(exe, prop, path, kf, mode=None, timeout=300):
     cmd = [exe, "--replay", path, "--kf", ",".join(kf)]
     if mode:
         cmd += ["--mode", mode]
+    extra = {}
     try:
-        r = run(cmd, env=child_env(prop), timeout=timeout, preexec_fn=big_stack)
+        with open(path, "rb") as f:
+            for m in re.finditer(r"^env: (\w+)=(.*)$", f.read(4096).decode("latin1"), re.M):
+                extra[m.group(1)] = m.group(2).strip()
+    except OSError:
+        pass
+    try:
+        r = run(cmd, env=child_env(prop, extra), timeout=timeout, preexec_fn=big_stack)
     except subprocess.TimeoutExpired:
         return "timeout", ""
     if r.returncode == 0:
@@ -460,7 +467,7 @@ def main():
                     if "maxbytes" in step:
                         cmd += ["--maxbytes", str(step["maxbytes"])]
                 errf = open(out + ".stderr", "w")
-                extra = {}
+                extra = {"VERIF_HASHSEED": str((seed * 7919 + w * 104729 + 17) % 2000000011)}
                 if step.get("pin"):
                     extra["VERIF_PIN_BASE"] = str(0)
                 p = subprocess.Popen(cmd, stdout=subprocess.DEVNULL, stderr=errf, env=child_env(prop, extra), preexec_fn=big_stack)
